@@ -801,7 +801,7 @@ func receive(res *Result, prop string, i int, b []byte, st *decState, bud *decBu
 			runtime.ReadMemStats(&ms0)
 			s0 = simrt.Steps
 			if simrt.Woven {
-				simrt.StepLimit = s0 + 5_000_000 + 500*uint64(len(b))
+				simrt.StepLimit = s0 + (5_000_000+500*uint64(len(b)))*nestFactor(en.name, b)
 			}
 			t0 = time.Now()
 			c0 = cpuTime()
@@ -831,7 +831,10 @@ func receive(res *Result, prop string, i int, b []byte, st *decState, bud *decBu
 			if wall.Milliseconds() > bud.maxWallMs {
 				bud.maxWallMs = wall.Milliseconds()
 			}
-			limit := uint64(1<<20) + 1024*uint64(len(b))
+			// (a user type that re-enters the helper at every level of nesting - shape 9 - makes ANY
+			// decoder of this kind, encoding/json included, re-read the remaining input once per
+			// level: the budget is the property's, per level of nesting the input really has)
+			limit := (uint64(1<<20) + 1024*uint64(len(b))) * nestFactor(en.name, b)
 			if alloc > limit {
 				res.violate("C06", "allocation-over-budget", en.name, i, "%s allocated %d bytes for a %d-byte input (budget 1 MiB + 1 KiB/byte = %d); input starts %x", en.name, alloc, len(b), limit, head(b, 48))
 			}
@@ -1492,4 +1495,42 @@ func slowdownNow() float64 {
 		f = 1
 	}
 	return f
+}
+
+// nestFactor is 1, except for the entry points whose target type nests itself
+// and decodes through the helper again at every level: there it is one more
+// than the nesting depth of the input (brackets / braces outside strings for
+// JSON, the walker's depth for well-formed CBOR).
+func nestFactor(entry string, b []byte) uint64 {
+	if !strings.Contains(entry, "(shape9)") {
+		return 1
+	}
+	depth, max := 0, 0
+	if strings.Contains(entry, "JSON") {
+		inStr, esc := false, false
+		for _, c := range b {
+			switch {
+			case esc:
+				esc = false
+			case inStr && c == '\\':
+				esc = true
+			case c == '"':
+				inStr = !inStr
+			case !inStr && (c == '{' || c == '['):
+				depth++
+				if depth > max {
+					max = depth
+				}
+			case !inStr && (c == '}' || c == ']'):
+				depth--
+			}
+		}
+	} else if hs, ok := allHeads(b); ok {
+		for _, h := range hs {
+			if h.Depth > max {
+				max = h.Depth
+			}
+		}
+	}
+	return uint64(1 + max)
 }
